@@ -5,6 +5,8 @@ import G3D.Proofs.K2
 import G3D.Proofs.K4a
 import G3D.Proofs.K4f
 import G3D.Proofs.K4l
+import G3D.Proofs.EulerAllProof
+import G3D.Proofs.Euler7
 /-! # C03 — ConvexPolygon / ConvexPolyhedron × ConvexPolygon / ConvexPolyhedron  (partial)
     Proved: polygon × polygon EXACT in every relative position (kernels K0, K1, K2, K6); soundness of every pair.
     Completeness of polygon × polyhedron (K3) and polyhedron × polyhedron (K3, K4) is not proved; decided on every
@@ -136,5 +138,28 @@ theorem inter_polyhedron_polyhedron_exact_of_euler (A B : Polyhedron) (hA : A.Ex
     ∃ o, inter (.polyhedron A) (.polyhedron B) = .ok o ∧ (∀ ob, o = some ob → OpOK ob) ∧
       ∀ x, denOptB o x ↔ (InHull A.verts x ∧ InHull B.verts x) := by
   rw [Props.C04.inter_eq_ref]; exact interPolyhedronPolyhedron_exactOK_of_euler A B hA hB heul
+
+
+/-! ### C03 at full strength — no hypothesis left -/
+/-- **ConvexPolyhedron × ConvexPolyhedron is EXACT and total**: for two polyhedra meeting `ExactHyp`, `intersection` returns
+    without any error None, a Point, a proper Segment, a Valid polygon or a polyhedron meeting `ExactHyp` again, denoting
+    exactly hull(A) ∩ hull(B).  (K4 + Euler's polyhedron formula for the assembled complex, both proved.) -/
+theorem inter_polyhedron_polyhedron_exact (A B : Polyhedron) (hA : A.ExactHyp) (hB : B.ExactHyp) :
+    ∃ o, inter (.polyhedron A) (.polyhedron B) = .ok o ∧ (∀ ob, o = some ob → OpOK ob) ∧
+      ∀ x, denOptB o x ↔ (InHull A.verts x ∧ InHull B.verts x) := by
+  rw [Props.C04.inter_eq_ref]; exact interPolyhedronPolyhedron_exactOK A B hA hB
+
+/-- **every pair of composite operands, and every other of the 49 pairs**: exact, total, result admissible -/
+theorem inter_exact_every_pair (a b : Obj) (ha : OpOK a) (hb : OpOK b) :
+    ∃ o, inter a b = .ok o ∧ ResOK' o ∧ ∀ x, denOptB o x ↔ (ObjDen a x ∧ ObjDen b x) := by
+  rw [Props.C04.inter_eq_ref]; exact interRef_exact_all eulerAll a b ha hb
+
+/-- **Euler's polyhedron formula** V − E + F = 2 for a Valid body without coplanar neighbouring faces whose directed edges are
+    pairwise distinct (necessary: a face list repeated twice is still closed) — the check `ConvexPolyhedron.__init__` makes
+    can never fail on such a body -/
+theorem euler_formula (B : Polyhedron) (hV : B.Valid) (hloc : B.FaceLocal)
+    (hnd : (dirEdges (B.faces.map (·.pts))).Nodup) :
+    ((collectVerts B.faces).length : Int) - (edgesOf B.faces []).length + B.faces.length = 2 :=
+  Polyhedron.euler B hV hloc hnd
 
 end G3D.Props.C03
